@@ -92,7 +92,7 @@ impl Monitor for ExchangeMon {
                     if let Ok(m) = rc::decode(data) {
                         if matches!(m.body, Body::DelayReq { .. }) {
                             let v: u128 = bits.parse().unwrap();
-                            if let Some(e) = st.reqs.iter_mut().find(|(s, _)| *s == m.hdr.seq) {
+                            if let Some(e) = st.reqs.iter_mut().rev().find(|(s, _)| *s == m.hdr.seq) {
                                 // a context is returned at most once
                                 e.1 = Some(v as i128);
                             }
@@ -105,17 +105,30 @@ impl Monitor for ExchangeMon {
     }
 
     fn post(&self, st: &mut ExSt, _run: &mut Run<'_>, s: &Step, report: Option<&mut Vec<Violation>>) {
+        let mut local = vec![];
         // requests sent in this step
         for (_, acts) in &s.acts {
             for a in acts {
                 if let Some(Ok(m)) = &a.decoded {
                     if matches!(m.body, Body::DelayReq { .. }) && a.kind == "SendEvent" {
+                        // "matching sequence numbers" presupposes that consecutive requests differ
+                        if let Some((prev, _)) = st.reqs.last() {
+                            if m.hdr.seq != prev.wrapping_add(1) {
+                                local.push(Violation {
+                                    signature: "delay-request-ids-not-consecutive".into(),
+                                    message: format!("Delay_Req with sequence id {} follows one with id {}: a late response to the earlier request would be taken for the later one", m.hdr.seq, prev),
+                                    replay: json!(null),
+                                });
+                            }
+                        }
                         st.reqs.push((m.hdr.seq, None));
+                        if st.reqs.len() > 8 {
+                            st.reqs.remove(0);
+                        }
                     }
                 }
             }
         }
-        let mut local = vec![];
         for (_, c) in &s.filter_calls {
             let FilterCall::Measurement(m) = c else { continue };
             st.n_meas += 1;
@@ -294,6 +307,12 @@ pub fn systems(tier: Tier) -> Vec<Built> {
         }
         // a response from a non-parent with a matching id
         alpha = alpha.add(Ev::Raw(0, hex(&b.delay_resp(0, Ts::from_ns(tag_ns(t) as u128), 0, &own)), false));
+        t += 1;
+        // a Follow_Up and a two-step Sync from a non-parent bearing the first exchange's id
+        alpha = alpha.add(Ev::Raw(0, hex(&b.follow_up(seq0, Ts::from_ns(tag_ns(t) as u128), tag_corr(t))), false));
+        t += 1;
+        let rx = (tag_ns(t) as u128) << 32 | 0x0bad_0001;
+        alpha = alpha.add(Ev::RawAt(0, hex(&b.sync(seq0, true, Ts::default(), tag_corr(t))), rx.to_string()));
         let sys = WorldSys {
             property: "C09",
             name: name.to_string(),
@@ -402,6 +421,48 @@ pub fn run(tier: Tier) -> i32 {
     let depths: std::collections::HashMap<String, (usize, usize)> = built.iter().map(|b| (b.sys.name.clone(), b.depth)).collect();
     let systems: Vec<_> = built.into_iter().map(|b| b.sys).collect();
     explore_all(&mut rep, &systems, |s| tier.pick(depths[&s.name].0, depths[&s.name].1), tier.pick(12.0, 400.0));
+    // the port's own Delay_Req ids across the 65535 -> 0 wrap: 65535 ordinary requests, then
+    // request A (id 65535) whose response is late, request B (id 0), A's response, B's response,
+    // in every order of the last three events
+    {
+        let sys = &systems[0];
+        let own = Pid { clock: sys.cfg.node.identity, port: 1 };
+        let a = sys.cfg.peers[0].clone();
+        let mut base: Vec<Ev> = vec![];
+        for _ in 0..65535u32 {
+            base.push(Ev::T(0, Timer::Delay));
+            base.push(Ev::TxTsAt(0, (((tag_ns(3) as u128) << 32) | 0x0101_0101).to_string()));
+        }
+        base.push(Ev::T(0, Timer::Delay)); // A
+        base.push(Ev::TxTsAt(0, (((tag_ns(4) as u128) << 32) | 0x4000_0000).to_string()));
+        base.push(Ev::T(0, Timer::Delay)); // B
+        let tx_b = Ev::TxTsAt(0, (((tag_ns(5) as u128) << 32) | 0x0000_ffff).to_string());
+        let resp_a = Ev::Raw(0, hex(&a.delay_resp(65535, Ts::from_ns(tag_ns(6) as u128), tag_corr(6), &own)), false);
+        let resp_b = Ev::Raw(0, hex(&a.delay_resp(0, Ts::from_ns(tag_ns(7) as u128), tag_corr(7), &own)), false);
+        use rayon::prelude::*;
+        let orders = [[0usize, 1, 2], [0, 2, 1], [1, 0, 2], [1, 2, 0], [2, 0, 1], [2, 1, 0]];
+        let res: Vec<Vec<Violation>> = orders
+            .par_iter()
+            .map(|order| {
+                let tail = [tx_b.clone(), resp_a.clone(), resp_b.clone()];
+                let mut h = base.clone();
+                for &i in order {
+                    h.push(tail[i].clone());
+                }
+                let mut v = sys.run_all_judged(&h).violations;
+                for x in &mut v {
+                    x.message = format!("{} [after 65535 earlier Delay_Req; tail order {:?}]", x.message.chars().take(600).collect::<String>(), order);
+                    x.replay = json!({"kind": "wrap", "order": order});
+                }
+                v
+            })
+            .collect();
+        let n = res.len() as u64;
+        for v in res {
+            rep.violations(v);
+        }
+        rep.cover("delay_req_id_wrap_histories", json!(n));
+    }
     let (n, dom, v) = lattice(tier);
     rep.violations(v);
     rep.cover("arithmetic_lattice", json!({"cases": n, "in_non_underflow_domain": dom}));
@@ -411,8 +472,8 @@ pub fn run(tier: Tier) -> i32 {
 }
 
 pub fn replay(r: &serde_json::Value) {
-    if r["kind"] == "lattice" {
-        println!("lattice case {r}: rerun ./check C09 quick");
+    if r["kind"] == "lattice" || r["kind"] == "wrap" {
+        println!("case {r}: rerun ./check C09 quick (the case is re-derived)");
         return;
     }
     let systems: Vec<_> = systems(Tier::Thorough).into_iter().map(|b| b.sys).collect();
